@@ -11,6 +11,14 @@ PY = "/venv/bin/python"
 
 # property -> (technique, level text, level note, design ref)
 CLAIMED = {
+    "C02": ("TLA+ reference semantics of label and position slices (spec/Labels.tla LocSlice, PosSlice) enumerated exhaustively by TLC and replayed",
+            "TLC enumerates every (axis, start, stop, step) combination within bounds (monotonic axes = all subsets of the universe in both directions incl. empty, shuffled, string, position slices; 1-d and embedded in 2-d), checks bounding-box / no-wrap theorems on the spec, and each expected selection is compared with the real library through every spelling.",
+            "Trusted: TLC, projection/concretisation, NumPy. Bounds: axis length 0-3 quick / 0-5 thorough, bounds from one below to one above the universe, steps None,1,2,3,-1,-2.",
+            "5 (C02)"),
+    "C03": ("TLA+ reference semantics of assignment (spec/Arrays.tla Put, MC_C03 PutMask) enumerated by TLC with frame / read-back theorems; scenarios replayed",
+            "TLC enumerates index forms x right-hand-side shapes x inplace, the 4x4 dtype-kind table with cast, N-d boolean masks and a.values=v; frame condition and read-back are TLC invariants of the spec; every scenario is replayed through a[idx]=v, put, .ix, .iloc, .loc and compared cell by cell, dtype kind against the loss-free set.",
+            "Trusted: TLC, projection/concretisation, NumPy. Bounds: 1-2 dims, axes of 1-3 labels; repeated list indices only with scalar right-hand sides.",
+            "5 (C03)"),
     "C01": ("TLA+ reference semantics (spec/Arrays.tla Take/ResolveIndex) enumerated exhaustively by TLC; every scenario "
             "replayed into dimarray through all spellings and label kinds",
             "TLC enumerates every (array, per-dimension index menu, mode, tolerance) scenario within the stated bounds, checks the "
